@@ -57,6 +57,11 @@ def cases(tier, seed):
         for k in range(nmat):
             out.append({"kind": "matrix", "cls": cls, "idx": idx, "seed": seed, "maxn": maxn, "budgets": budgets})
             idx += 1
+    # size ladder: n beyond the default windows (12) and plausible panel widths (8 / 16); few budgets (cost)
+    for n_ in ([13, 17] if tier == "quick" else [9, 12, 13, 14, 16, 17, 18, 20, 24, 26, 33]):
+        for cls in ("generic", "hermitian") if tier == "quick" else ("generic", "hermitian", "int", "upper_tri"):
+            out.append({"kind": "matrix", "cls": cls, "idx": idx, "seed": seed, "maxn": maxn, "budgets": [0, 2, 300], "n": n_})
+            idx += 1
     return out
 
 
@@ -124,6 +129,9 @@ def run_case(spec, ctx, R):
     rng = gen.rng_for(spec["seed"], "c10", spec["idx"])
     cls = spec["cls"]
     n = 1 + spec["idx"] % spec["maxn"] if spec["idx"] % 2 else int(rng.integers(2, spec["maxn"] + 1))
+    if "n" in spec:
+        n = spec["n"]
+        ctx.hit("size:ladder")
     A, herm, eigs = make(rng, cls, n)
     A = gen.vary(A, spec["idx"])
     nrm = refq.fro(A)
